@@ -22,7 +22,7 @@ func ruleF4(c *Ctx, id string) {
 				return false, false
 			}
 			sc, ok := cd.X.(*ssa.Call)
-			if ok && sc.Call.StaticCallee() == V.IsShrinking && stripConv(sc.Call.Args[0]) == stripConv(ip) {
+			if ok && staticCallee(sc) == V.IsShrinking && stripConv(sc.Call.Args[0]) == stripConv(ip) {
 				return true, false
 			}
 			return false, false
@@ -32,7 +32,7 @@ func ruleF4(c *Ctx, id string) {
 		for v := range bwdSources(stripConv(ip)) {
 			if cl, ok := v.(*ssa.Call); ok {
 				for _, h := range helpers {
-					if cl.Call.StaticCallee() == h {
+					if staticCallee(cl) == h {
 						return true
 					}
 				}
@@ -55,7 +55,7 @@ func ruleF4(c *Ctx, id string) {
 					continue
 				}
 				sc, isC := br.Cond.X.(*ssa.Call)
-				if !isC || sc.Call.StaticCallee() != V.IsShrinking {
+				if !isC || staticCallee(sc) != V.IsShrinking {
 					continue
 				}
 				if (br.Block == oe.From && br.False == oe.To) || br.False == blk || (len(br.False.Preds) == 1 && br.False.Dominates(blk)) {
